@@ -58,7 +58,7 @@ func scenC40(e *Env) func() {
 	p := &c40Plan{Clients: e.Range(2, 4)}
 	n := e.Range(4, 25)
 	for i := 0; i < n; i++ {
-		op := c40Op{Op: Pick(e, "call", "call", "call", "call", "call", "pending", "sleep", "sleep", "add", "remove", "burst", "removeall")}
+		op := c40Op{Op: Pick(e, "call", "call", "call", "call", "call", "pending", "sleep", "sleep", "add", "remove", "burst", "burst", "churn", "removeall")}
 		switch op.Op {
 		case "call":
 			for j := 0; j < 6; j++ {
@@ -67,6 +67,9 @@ func scenC40(e *Env) func() {
 		case "burst":
 			op.J = e.Int(p.Clients)
 			op.N = Pick(e, 5, 50, 299, 300, 301, 340)
+		case "churn":
+			op.J = e.Int(6)
+			op.N = Pick(e, 2, 4, 8)
 		case "pending":
 			op.J = e.Int(6)
 			op.N = Pick(e, 0, 0, 1, 2, 5, 300, 301, 299)
@@ -199,6 +202,76 @@ func c40Run(e *Env, p *c40Plan) {
 				pen++
 			}
 			e.Fault("burst-failures")
+			// measure the bound right away (no simulated time has passed): against a reference
+			// client with 301 pending requests the penalised client must still be preferred,
+			// because its penalty never exceeds 300
+			var ref *mClient
+			for _, mm := range model {
+				if mm.present && mm != m {
+					ref = mm
+					break
+				}
+			}
+			if ref != nil && op.N >= 250 {
+				saved2 := make([]int32, len(fakes))
+				for i, f := range fakes {
+					saved2[i] = atomic.LoadInt32(&f.base)
+					f.fail.Store(false)
+					switch f {
+					case m.f:
+						atomic.StoreInt32(&f.base, 0)
+					case ref.f:
+						atomic.StoreInt32(&f.base, 301)
+					default:
+						atomic.StoreInt32(&f.base, 100000)
+					}
+				}
+				chosen, err := doCall()
+				for i, f := range fakes {
+					atomic.StoreInt32(&f.base, saved2[i])
+				}
+				e.Ob(1)
+				if err == nil && chosen == ref.f.id {
+					e.Violation("penalty-bound", "op %d: after %d concurrent failures on client %d a client with 301 pending requests was preferred to it: its penalty exceeds 300", oi, op.N, m.f.id)
+					return
+				}
+				if err == nil && chosen == m.f.id {
+					m.total++
+				}
+			}
+		case "churn":
+			// concurrent successful calls while clients are removed and added
+			for _, f := range fakes {
+				f.fail.Store(false)
+			}
+			var wg sync.WaitGroup
+			for k := 0; k < op.N; k++ {
+				wg.Add(1)
+				Go("churn-caller", func() {
+					defer wg.Done()
+					for r := 0; r < 3; r++ {
+						req, resp := fasthttp.AcquireRequest(), fasthttp.AcquireResponse()
+						req.SetRequestURI("http://lb/x")
+						lb.Do(req, resp)
+					}
+				})
+			}
+			if op.J < len(model) && model[op.J].present {
+				target := model[op.J].f
+				lb.RemoveClients(func(c fasthttp.BalancingClient) bool { return c == fasthttp.BalancingClient(target) })
+				model[op.J].present = false
+			}
+			if len(fakes) < 6 {
+				f := newFake()
+				lb.AddClient(f)
+				model = append(model, &mClient{f: f, present: true})
+			}
+			wg.Wait()
+			onlySuccess = false // completed counts are no longer known exactly
+			for _, mm := range model {
+				mm.total = -1 << 20
+			}
+			e.Probe("churn")
 		case "call":
 			var present []*mClient
 			for _, m := range model {
